@@ -24,7 +24,7 @@ SRC = os.path.join(REPO, "src", "main", "python")
 
 REWRITES = [
   "`a is b` / `a is not b`  ->  __vc_is__(a, b) / __vc_is_not__(a, b)   (identity on non-symbolic operands)",
-  "module globals `int`, `float`, `isinstance`, `list`, `set`, `type` shadowed by shims that are the builtins on non-symbolic operands",
+  "module globals `int`, `float`, `isinstance`, `list`, `set`, `dict`, `type` shadowed by shims that are the builtins on non-symbolic operands",
   "module global `Fraction` (if the module imports fractions.Fraction) replaced by a shim, identical on non-symbolic operands",
   "loops named in a contract are cut at their head (invariant/havoc) -- applied per function by pyvc.contracts, not at load time",
   "nothing is dropped: docstrings, annotations, logging calls and all other statements execute as written",
@@ -58,6 +58,7 @@ SHIM_GLOBALS = {
   "isinstance": core.vc_isinstance,
   "list": _heap.vc_list,
   "set": core.vc_set,
+  "dict": core.vc_dict,
   "type": _heap.vc_type,
 }
 
